@@ -69,17 +69,31 @@ def implies_ge0(cons, goal):
     return infeasible(cons + [neg])
 
 # ---------------------------------------------------------------- extraction
-def poly_of(e, names):
+LETS = [{}]      # immutable single-binding lets of the function under analysis: var -> initialiser (hoisted sub-expressions such as `let step = n + 1`)
+
+def collect_lets(t):
+    out = {}
+    for b in walk(t['body']):
+        if b['k'] != 'Block': continue
+        for st in b['stmts']:
+            if st['k'] == 'Let' and st.get('init') is not None and st['init'].get('exp') is None:
+                q = unwrap_pat(st['pat'])
+                if q['k'] == 'Binding' and not q.get('mutable'): out[q['var']] = st['init']
+    return out
+
+def poly_of(e, names, depth=0):
     e = strip(e)
     if e['k'] in ('VarRef', 'UpvarRef'):
         v = names.get(e['var'])
+        if v is None and e['var'] in LETS[0] and depth < 8:
+            return poly_of(LETS[0][e['var']], names, depth + 1)       # a local name for a sub-expression
         if v is None: raise NUndec('index expression uses %s, which is neither a loop variable nor the board size' % e['var'].split('#')[0], e['loc'])
         return PV(v)
     if e['k'] == 'Literal' and e.get('lit') == 'Int': return P(int(e['value']))
     if e['k'] == 'Binary' and e['op'] in ('Add', 'Sub', 'Mul'):
-        a, b = poly_of(e['lhs'], names), poly_of(e['rhs'], names)
+        a, b = poly_of(e['lhs'], names, depth), poly_of(e['rhs'], names, depth)
         return padd(a, b) if e['op'] == 'Add' else padd(a, b, -1) if e['op'] == 'Sub' else pmul(a, b)
-    if e['k'] == 'Cast' or e['k'] == 'Use': return poly_of(e['source'], names)
+    if e['k'] == 'Cast' or e['k'] == 'Use': return poly_of(e['source'], names, depth)
     raise NUndec('index expression construct %s (%s)' % (e['k'], pp(e)[:50]), e.get('loc'))
 
 def for_loop(e):
@@ -174,18 +188,18 @@ def literal_texts(e):
     return out
 
 def top_level_loops(body):
-    """for-loops that are statements of the function body, in order"""
-    b = body
-    while b['k'] in ('Use', 'NeverToAny'): b = b['source']
+    """the outermost `for` loops of the function, in source order - wherever they sit (the function's own block, or the block of a
+    helper that was inlined into it)"""
     out = []
-    for s in b['stmts']:
-        e = s.get('expr') if s['k'] == 'Expr' else s.get('init')
-        if e is None: continue
-        e0 = e
-        while e0['k'] in ('Use', 'NeverToAny', 'Block') and (e0['k'] != 'Block' or (not e0['stmts'] and e0['expr'] is not None)):
-            e0 = e0.get('source') or e0.get('expr')
-        fl = for_loop(e0)
-        if fl is not None: out.append((fl, e0))
+    def rec(e):
+        if not isinstance(e, dict): return
+        if e.get('k') == 'Match' and e.get('source') == 'ForLoopDesugar':
+            fl = for_loop(e)
+            if fl is not None: out.append((fl, e))
+            return                      # do not descend: inner loops belong to this nest
+        from facts import children
+        for ch in children(e): rec(ch)
+    rec(body)
     return out
 
 PATTERN = [None]
@@ -325,6 +339,7 @@ def rule_queens(F, R):
     from engine_t import tokenizer_pattern
     PATTERN[0] = tokenizer_pattern(F.lib())[0]
     CRATE[0] = F.crate("n_queens_gen")
+    LETS[0] = collect_lets(t)
     if PATTERN[0] is None:
         R.violation('n_queens_gen::main / N / tokenizer', 'UNDECIDABLE', 'tokenizer pattern not found'); return
     try:
